@@ -15,11 +15,14 @@ Definition lookup (f : frac) (x : id) : option body := lookup_docs (f_docs f) x.
 Definition docs_wf (l : list (id * body)) : Prop :=
   NoDup (map fst l) /\ Forall (fun e => fst (fst e) < max64 /\ snd (fst e) <= max64) l.
 
-(* the fraction's time range / occupancy map never excludes a stored document (property C14) *)
-Definition info_sound (f : frac) : Prop :=
-  forall x b lo hi, lookup f x = Some b -> lo <= fst x -> fst x <= hi -> intersecting f lo hi = true.
+(* the fraction's time range / occupancy map does not exclude a stored document for any request range
+   [lo, hi] with hi <= B that contains its timestamp (pruning soundness: property C14).
+   Proved below (ProofsMain.info_sound_nodist) for every B when the fraction has no occupancy map. With a map,
+   the code as it is satisfies it only for B < 2^63 (see info_unsound_above_int64 in Props.v). *)
+Definition info_sound (B : N) (f : frac) : Prop :=
+  forall x b lo hi, lookup f x = Some b -> lo <= fst x -> fst x <= hi -> hi <= B -> intersecting f lo hi = true.
 
-Definition frac_wf (f : frac) : Prop := docs_wf (f_docs f) /\ 1 <= f_name f /\ info_sound f.
+Definition frac_wf (B : N) (f : frac) : Prop := docs_wf (f_docs f) /\ 1 <= f_name f /\ info_sound B f.
 
 Definition is_some {A} (o : option A) : bool := match o with Some _ => true | None => false end.
 Definition hint_ok (f : frac) (s : idsrc) : bool := (snd s =? 0) || (snd s =? f_name f).
@@ -32,8 +35,8 @@ Definition expected (frs : list frac) (s : idsrc) : option body :=
   | None => None
   end.
 
-Definition corpus_wf (frs : list frac) : Prop :=
-  Forall frac_wf frs /\ NoDup (map f_name frs) /\
+Definition corpus_wf (B : N) (frs : list frac) : Prop :=
+  Forall (frac_wf B) frs /\ NoDup (map f_name frs) /\
   (forall f1 f2 x, In f1 frs -> In f2 frs -> lookup f1 x <> None -> lookup f2 x <> None -> f1 = f2).
 
 Definition cfg_ok (g : cfg) : Prop := 1 <= ipb g /\ 1 <= init_chunk g.
